@@ -52,6 +52,9 @@ func c14Gen(rt *rapid.T) wProg {
 	one := func(s int) wOp {
 		var op wOp
 		switch x := gInt(rt, 0, 99, "k"); {
+		case x < 5:
+			// {sub} and the connection drops before the hub and the topic have finished with it
+			op = wOp{K: "sub", S: s, T: topicFor(s), M: 77}
 		case x < 26:
 			op = wOp{K: "sub", S: s, T: topicFor(s)}
 		case x < 44:
